@@ -23,7 +23,7 @@ package ro
 //@ func (*publishSubjectImpl).NextWithContext
 //@   props C01 C02 C10 C13
 //@   binds ctx value
-//@   ensures [one-critical-section|C10,C13] count(lock.mu) == 1
+//@   ensures [one-critical-section|C02,C10,C13] count(lock.mu) == 1
 //@   inline (*publishSubjectImpl).broadcastNext
 //@   track observers.* elem.* hook.* call.NewNotification*
 //@   ensures [open-broadcasts-to-all|C01,C10] atlock(status) == 0 ==> trace(observers.Range, elem.NextWithContext(ctx, value), observers.RangeEnd)
@@ -34,7 +34,7 @@ package ro
 //@ func (*publishSubjectImpl).ErrorWithContext
 //@   props C01 C02 C10 C13
 //@   binds ctx err
-//@   ensures [one-critical-section|C10,C13] count(lock.mu) == 1
+//@   ensures [one-critical-section|C02,C10,C13] count(lock.mu) == 1
 //@   inline (*publishSubjectImpl).broadcastError (*publishSubjectImpl).unsubscribeAll
 //@   track observers.* elem.* hook.* call.NewNotification*
 //@   ensures [open-stores-broadcasts-clears|C01,C10] atlock(status) == 0 ==> atunlock(status) == 1 && atunlock(err).A == ctx && atunlock(err).B == err && trace(observers.Range, elem.ErrorWithContext(ctx, err), observers.RangeEnd, observers.Range, observers.Delete(_), observers.RangeEnd)
@@ -44,7 +44,7 @@ package ro
 //@ func (*publishSubjectImpl).CompleteWithContext
 //@   props C01 C02 C10 C13
 //@   binds ctx
-//@   ensures [one-critical-section|C10,C13] count(lock.mu) == 1
+//@   ensures [one-critical-section|C02,C10,C13] count(lock.mu) == 1
 //@   inline (*publishSubjectImpl).broadcastComplete (*publishSubjectImpl).unsubscribeAll
 //@   track observers.* elem.* hook.* call.NewNotification*
 //@   ensures [open-stores-broadcasts-clears|C01,C10] atlock(status) == 0 ==> atunlock(status) == 2 && trace(observers.Range, elem.CompleteWithContext(ctx), observers.RangeEnd, observers.Range, observers.Delete(_), observers.RangeEnd)
@@ -52,9 +52,9 @@ package ro
 //@   ensures [broadcast-under-lock|C02,C10,C13] heldat(mu, elem.CompleteWithContext)
 
 //@ func (*publishSubjectImpl).SubscribeWithContext
-//@   props C01 C03 C10 C13
+//@   props C01 C02 C03 C10 C13
 //@   binds subscriberCtx destination
-//@   ensures [one-critical-section|C10,C13] count(lock.mu) == 1 && heldat(mu, sub.ANY) && heldat(mu, loop.ANY)
+//@   ensures [one-critical-section|C02,C10,C13] count(lock.mu) == 1 && heldat(mu, sub.ANY) && heldat(mu, loop.ANY)
 //@   alias sub=NewSubscriber()
 //@   track call.NewSubscriber observers.* NewSubscriber().*
 //@   ensures [wraps-then-registers-when-open|C01,C03,C10] atlock(status) == 0 ==> trace(call.NewSubscriber(destination), observers.Store(_, res(call.NewSubscriber)), sub.Add(_))
@@ -96,7 +96,7 @@ package ro
 //@ func (*behaviorSubjectImpl).NextWithContext
 //@   props C01 C02 C10 C13
 //@   binds ctx value
-//@   ensures [one-critical-section|C10,C13] count(lock.mu) == 1
+//@   ensures [one-critical-section|C02,C10,C13] count(lock.mu) == 1
 //@   inline (*behaviorSubjectImpl).broadcastNext
 //@   track observers.* elem.* hook.* call.NewNotification*
 //@   ensures [open-stores-and-broadcasts|C01,C10] atlock(status) == 0 ==> atunlock(last).A == ctx && atunlock(last).B == value && trace(observers.Range, elem.NextWithContext(ctx, value), observers.RangeEnd)
@@ -107,7 +107,7 @@ package ro
 //@ func (*behaviorSubjectImpl).ErrorWithContext
 //@   props C01 C02 C10 C13
 //@   binds ctx err
-//@   ensures [one-critical-section|C10,C13] count(lock.mu) == 1
+//@   ensures [one-critical-section|C02,C10,C13] count(lock.mu) == 1
 //@   inline (*behaviorSubjectImpl).broadcastError (*behaviorSubjectImpl).unsubscribeAll
 //@   track observers.* elem.* hook.* call.NewNotification*
 //@   ensures [open-stores-broadcasts-clears|C01,C10] atlock(status) == 0 ==> atunlock(status) == 1 && atunlock(err).A == ctx && atunlock(err).B == err && trace(observers.Range, elem.ErrorWithContext(ctx, err), observers.RangeEnd, observers.Range, observers.Delete(_), observers.RangeEnd)
@@ -117,7 +117,7 @@ package ro
 //@ func (*behaviorSubjectImpl).CompleteWithContext
 //@   props C01 C02 C10 C13
 //@   binds ctx
-//@   ensures [one-critical-section|C10,C13] count(lock.mu) == 1
+//@   ensures [one-critical-section|C02,C10,C13] count(lock.mu) == 1
 //@   inline (*behaviorSubjectImpl).broadcastComplete (*behaviorSubjectImpl).unsubscribeAll
 //@   track observers.* elem.* hook.* call.NewNotification*
 //@   ensures [open-stores-broadcasts-clears|C01,C10] atlock(status) == 0 ==> atunlock(status) == 2 && trace(observers.Range, elem.CompleteWithContext(ctx), observers.RangeEnd, observers.Range, observers.Delete(_), observers.RangeEnd)
@@ -125,12 +125,12 @@ package ro
 //@   ensures [broadcast-under-lock|C02,C10,C13] heldat(mu, elem.CompleteWithContext)
 
 //@ func (*behaviorSubjectImpl).SubscribeWithContext
-//@   props C01 C03 C10 C13
+//@   props C01 C02 C03 C10 C13
 //@   binds subscriberCtx destination
-//@   ensures [one-critical-section|C10,C13] count(lock.mu) == 1 && heldat(mu, sub.ANY) && heldat(mu, loop.ANY)
+//@   ensures [one-critical-section|C02,C10,C13] count(lock.mu) == 1 && heldat(mu, sub.ANY) && heldat(mu, loop.ANY)
 //@   alias sub=NewSubscriber()
 //@   track call.NewSubscriber observers.* NewSubscriber().*
-//@   ensures [open-replays-latest-then-registers|C01,C03,C10] atlock(status) == 0 ==> trace(call.NewSubscriber(destination), sub.NextWithContext(atlock(last).A, atlock(last).B), observers.Store(_, res(call.NewSubscriber)), sub.Add(_))
+//@   ensures [open-replays-latest-then-registers|C01,C02,C03,C10] atlock(status) == 0 ==> trace(call.NewSubscriber(destination), sub.NextWithContext(atlock(last).A, atlock(last).B), observers.Store(_, res(call.NewSubscriber)), sub.Add(_))
 //@   ensures [late-subscriber-gets-stored-error|C10] atlock(status) == 1 ==> trace(call.NewSubscriber(destination), sub.ErrorWithContext(atlock(err).A, atlock(err).B))
 //@   ensures [late-subscriber-gets-completion|C10] atlock(status) == 2 ==> trace(call.NewSubscriber(destination), sub.CompleteWithContext(subscriberCtx))
 //@   ensures [registration-under-lock|C10,C13] heldat(mu, observers.Store)
@@ -169,7 +169,7 @@ package ro
 //@ func (*asyncSubjectImpl).NextWithContext
 //@   props C01 C02 C10 C13
 //@   binds ctx value
-//@   ensures [one-critical-section|C10,C13] count(lock.mu) == 1
+//@   ensures [one-critical-section|C02,C10,C13] count(lock.mu) == 1
 //@   track observers.* elem.* hook.* call.NewNotification*
 //@   ensures [open-only-remembers|C01,C10] atlock(status) == 0 ==> atunlock(hasValue) == true && atunlock(value).A == ctx && atunlock(value).B == value && trace()
 //@   ensures [closed-drops|C01,C10] atlock(status) != 0 ==> trace(call.NewNotificationNext(value), hook.OnDroppedNotification(ctx, _))
@@ -178,7 +178,7 @@ package ro
 //@ func (*asyncSubjectImpl).ErrorWithContext
 //@   props C01 C02 C10 C13
 //@   binds ctx err
-//@   ensures [one-critical-section|C10,C13] count(lock.mu) == 1
+//@   ensures [one-critical-section|C02,C10,C13] count(lock.mu) == 1
 //@   inline (*asyncSubjectImpl).broadcastError (*asyncSubjectImpl).unsubscribeAll
 //@   track observers.* elem.* hook.* call.NewNotification*
 //@   ensures [open-stores-broadcasts-clears|C01,C10] atlock(status) == 0 ==> atunlock(status) == 1 && atunlock(err).A == ctx && atunlock(err).B == err && trace(observers.Range, elem.ErrorWithContext(ctx, err), observers.RangeEnd, observers.Range, observers.Delete(_), observers.RangeEnd)
@@ -188,7 +188,7 @@ package ro
 //@ func (*asyncSubjectImpl).CompleteWithContext
 //@   props C01 C02 C10 C13
 //@   binds ctx
-//@   ensures [one-critical-section|C10,C13] count(lock.mu) == 1
+//@   ensures [one-critical-section|C02,C10,C13] count(lock.mu) == 1
 //@   inline (*asyncSubjectImpl).broadcastComplete (*asyncSubjectImpl).broadcastNext (*asyncSubjectImpl).unsubscribeAll
 //@   track observers.* elem.* hook.* call.NewNotification*
 //@   ensures [open-with-value-emits-it-then-completes|C01,C10] atlock(status) == 0 && atlock(hasValue) ==> atunlock(status) == 2 && trace(observers.Range, elem.NextWithContext(atlock(value).A, atlock(value).B), observers.RangeEnd, observers.Range, elem.CompleteWithContext(ctx), observers.RangeEnd, observers.Range, observers.Delete(_), observers.RangeEnd)
@@ -197,9 +197,9 @@ package ro
 //@   ensures [broadcast-under-lock|C02,C10,C13] heldat(mu, elem.CompleteWithContext)
 
 //@ func (*asyncSubjectImpl).SubscribeWithContext
-//@   props C01 C03 C10 C13
+//@   props C01 C02 C03 C10 C13
 //@   binds subscriberCtx destination
-//@   ensures [one-critical-section|C10,C13] count(lock.mu) == 1 && heldat(mu, sub.ANY) && heldat(mu, loop.ANY)
+//@   ensures [one-critical-section|C02,C10,C13] count(lock.mu) == 1 && heldat(mu, sub.ANY) && heldat(mu, loop.ANY)
 //@   alias sub=NewSubscriber()
 //@   track call.NewSubscriber observers.* NewSubscriber().*
 //@   ensures [wraps-then-registers-when-open|C01,C03,C10] atlock(status) == 0 ==> trace(call.NewSubscriber(destination), observers.Store(_, res(call.NewSubscriber)), sub.Add(_))
@@ -243,7 +243,7 @@ package ro
 //@ func (*replaySubjectImpl).NextWithContext
 //@   props C01 C02 C10 C11 C13
 //@   binds s ctx value
-//@   ensures [one-critical-section|C10,C13] count(lock.mu) == 1
+//@   ensures [one-critical-section|C02,C10,C13] count(lock.mu) == 1
 //@   requires s.bufferSize >= -1
 //@   inline (*replaySubjectImpl).broadcastNext
 //@   track observers.* elem.* hook.* call.NewNotification*
@@ -258,7 +258,7 @@ package ro
 //@ func (*replaySubjectImpl).ErrorWithContext
 //@   props C01 C02 C10 C13
 //@   binds ctx err
-//@   ensures [one-critical-section|C10,C13] count(lock.mu) == 1
+//@   ensures [one-critical-section|C02,C10,C13] count(lock.mu) == 1
 //@   inline (*replaySubjectImpl).broadcastError (*replaySubjectImpl).unsubscribeAll
 //@   track observers.* elem.* hook.* call.NewNotification*
 //@   ensures [open-stores-broadcasts-clears|C01,C10] atlock(status) == 0 ==> atunlock(status) == 1 && atunlock(err).A == ctx && atunlock(err).B == err && trace(observers.Range, elem.ErrorWithContext(ctx, err), observers.RangeEnd, observers.Range, observers.Delete(_), observers.RangeEnd)
@@ -268,7 +268,7 @@ package ro
 //@ func (*replaySubjectImpl).CompleteWithContext
 //@   props C01 C02 C10 C13
 //@   binds ctx
-//@   ensures [one-critical-section|C10,C13] count(lock.mu) == 1
+//@   ensures [one-critical-section|C02,C10,C13] count(lock.mu) == 1
 //@   inline (*replaySubjectImpl).broadcastComplete (*replaySubjectImpl).unsubscribeAll
 //@   track observers.* elem.* hook.* call.NewNotification*
 //@   ensures [open-stores-broadcasts-clears|C01,C10] atlock(status) == 0 ==> atunlock(status) == 2 && trace(observers.Range, elem.CompleteWithContext(ctx), observers.RangeEnd, observers.Range, observers.Delete(_), observers.RangeEnd)
@@ -276,12 +276,12 @@ package ro
 //@   ensures [broadcast-under-lock|C02,C10,C13] heldat(mu, elem.CompleteWithContext)
 
 //@ func (*replaySubjectImpl).SubscribeWithContext
-//@   props C01 C03 C10 C13
+//@   props C01 C02 C03 C10 C13
 //@   binds subscriberCtx destination
-//@   ensures [one-critical-section|C10,C13] count(lock.mu) == 1 && heldat(mu, sub.ANY) && heldat(mu, loop.ANY)
+//@   ensures [one-critical-section|C02,C10,C13] count(lock.mu) == 1 && heldat(mu, sub.ANY) && heldat(mu, loop.ANY)
 //@   alias sub=NewSubscriber()
 //@   track call.NewSubscriber observers.* NewSubscriber().* loop.*
-//@   ensures [open-replays-buffer-then-registers|C01,C03,C10] atlock(status) == 0 ==> trace(call.NewSubscriber(destination), loop.L0, observers.Store(_, res(call.NewSubscriber)), sub.Add(_))
+//@   ensures [open-replays-buffer-then-registers|C01,C02,C03,C10] atlock(status) == 0 ==> trace(call.NewSubscriber(destination), loop.L0, observers.Store(_, res(call.NewSubscriber)), sub.Add(_))
 //@   ensures [late-subscriber-gets-buffer-then-stored-error|C10] atlock(status) == 1 ==> trace(call.NewSubscriber(destination), loop.L0, sub.ErrorWithContext(atlock(err).A, atlock(err).B))
 //@   ensures [late-subscriber-gets-buffer-then-completion|C10] atlock(status) == 2 ==> trace(call.NewSubscriber(destination), loop.L0, sub.CompleteWithContext(subscriberCtx))
 //@   ensures [registration-under-lock|C10,C13] heldat(mu, observers.Store)
@@ -324,7 +324,7 @@ package ro
 //@ func (*unicastSubjectImpl).NextWithContext
 //@   props C01 C02 C10 C13 C06
 //@   binds s ctx value
-//@   ensures [one-critical-section|C10,C13] count(lock.mu) == 1
+//@   ensures [one-critical-section|C02,C10,C13] count(lock.mu) == 1
 //@   requires s.bufferSize >= -1
 //@   track observer.* hook.* call.NewNotification*
 //@   ensures [open-with-subscriber-delivers|C01,C10] atlock(status) == 0 && atlock(observer) != nil ==> trace(observer.NextWithContext(ctx, value)) && len(atunlock(values)) == len(atlock(values))
@@ -337,7 +337,7 @@ package ro
 //@ func (*unicastSubjectImpl).ErrorWithContext
 //@   props C01 C02 C10 C13 C06
 //@   binds ctx err
-//@   ensures [one-critical-section|C10,C13] count(lock.mu) == 1
+//@   ensures [one-critical-section|C02,C10,C13] count(lock.mu) == 1
 //@   ensures [delivers-outside-the-subject-lock|C06,C10] notheldat(mu, observer.ErrorWithContext)
 //@   track observer.* hook.* call.NewNotification*
 //@   ensures [open-stores-error|C01,C10] atlock(status) == 0 ==> atunlock(status) == 1 && atunlock(err).A == ctx && atunlock(err).B == err && atunlock(observer) == nil
@@ -347,7 +347,7 @@ package ro
 //@ func (*unicastSubjectImpl).CompleteWithContext
 //@   props C01 C02 C10 C13 C06
 //@   binds ctx
-//@   ensures [one-critical-section|C10,C13] count(lock.mu) == 1
+//@   ensures [one-critical-section|C02,C10,C13] count(lock.mu) == 1
 //@   ensures [delivers-outside-the-subject-lock|C06,C10] notheldat(mu, observer.CompleteWithContext)
 //@   track observer.* hook.* call.NewNotification*
 //@   ensures [open-stores-completion|C01,C10] atlock(status) == 0 ==> atunlock(status) == 2 && atunlock(observer) == nil
@@ -355,9 +355,9 @@ package ro
 //@   ensures [closed-drops|C01,C10] atlock(status) != 0 ==> trace(call.NewNotificationComplete(), hook.OnDroppedNotification(ctx, _))
 
 //@ func (*unicastSubjectImpl).SubscribeWithContext
-//@   props C01 C03 C10 C13 C02 C05 C20
+//@   props C01 C03 C10 C13 C02 C05 C20 C08
 //@   binds subscriberCtx destination
-//@   ensures [one-critical-section|C05,C10,C13,C20] count(lock.mu) == 1 && heldat(mu, sub.ANY) && heldat(mu, loop.ANY)
+//@   ensures [one-critical-section|C05,C08,C10,C13,C20] count(lock.mu) == 1 && heldat(mu, sub.ANY) && heldat(mu, loop.ANY)
 //@   alias sub=NewSubscriber()
 //@   track call.NewSubscriber NewSubscriber().* loop.*
 //@   ensures [first-subscriber-gets-backlog-then-attached|C01,C02,C10] atlock(status) == 0 && atlock(observer) == nil ==> trace(call.NewSubscriber(destination), loop.L0, sub.Add(_)) && atunlock(observer) == res(call.NewSubscriber) && len(atunlock(values)) == 0
